@@ -172,13 +172,13 @@ ASMJIT_FAVOR_SIZE Error EmitHelper::emit_reg_move(
 
     default: {
       TypeId scalar_type_id = TypeUtils::scalar_of(type_id);
-      if (TypeUtils::is_vec32(type_id) && mem_flags) {
+      if ((TypeUtils::is_vec32(type_id) || type_id == TypeId::kFloat32) && mem_flags) {
         inst_id = ids().movd_or_movss(scalar_type_id == TypeId::kFloat32);
         override_mem_size = 4;
         break;
       }
 
-      if (TypeUtils::is_vec64(type_id) && mem_flags) {
+      if ((TypeUtils::is_vec64(type_id) || type_id == TypeId::kFloat64) && mem_flags) {
         inst_id = ids().movq_or_movsd(scalar_type_id == TypeId::kFloat64);
         override_mem_size = 8;
         break;
